@@ -60,6 +60,10 @@ def gen_case(rng):
         if k == 'histogram':
             nb = rng.randint(0, 6)
             bounds = sorted(set(round(rng.uniform(0, 100), 2) for _ in range(nb)))
+            if rng.random() < 0.25:
+                bounds = bounds + [float('inf')]          # Prometheus-style +Inf bucket, accepted by the SDK
+            if rng.random() < 0.08:
+                bounds = [float('-inf')] + bounds
             vals = [round(rng.uniform(-5, 150), 3) for _ in range(rng.randint(0, 12))]
             instruments.append({'name': nm, 'kind': k, 'bounds': bounds, 'values': vals})
         elif k == 'counter':
